@@ -68,9 +68,9 @@ def main(argv=None):
         # X.exact (a recorded number is not representable in the specification's units) is a
         # falsified clause only for C02 - exact contributions cannot produce such a value -;
         # for every other property it is drift
-        if cl.startswith("L2.") or (cl.startswith("X.") and prop != "C02"):
+        if cl.startswith("L2.") or (cl.startswith("X.") and not (prop == "C02" and cl == "X.exact")):
             out["drift"].append(f)
-        elif cl.startswith(prop + ".") or cl.startswith("X."):
+        elif cl.startswith(prop + ".") or cl == "X.exact":
             kf = classify(known, prop, cl, case, f)
             (out["known"] if kf else out["violations"]).append((f, kf, case))
 
